@@ -9,7 +9,8 @@ TB = ("Trusted: Coq 8.16.1 kernel and vm_compute (no native_compute; no axioms: 
       "(coq/theories/Impl.v, Exec.v) is tied to the code by differential execution on the same histories, not by proof. 64-bit little-endian only.")
 
 COMMON = (" Tie to the code (checked every run): tools/translate.py regenerates coq/gen/GenSrc.v (branch conditions, growth formula, limits, "
-          "atomic orderings, LastByte table, digit tables) from /repo and the whole development is re-checked against it; the hand-written "
+          "atomic orderings, LastByte table, digit tables, and the call skeleton of every modelled function, which must equal the one the model was read from: "
+          "theorem C01_source_skeleton) from /repo and the whole development is re-checked against it; the hand-written "
           "model (coq/theories/Impl.v, Exec.v) is extracted and run on the same operation histories as the real crate (corpus + generated, "
           "seeded by VERIF_SEED) and must agree on this property's projection of the trace; the property's monitors (the predicate itself, "
           "evaluated on the real run against std::string::String and a shadow heap) must stay silent.")
